@@ -1,5 +1,5 @@
 #!/bin/bash
-# usage: tools/mutP.sh <modules> <prop> <file> <old> <new>
+# usage: tools/mutQ.sh <modules> <prop> <file-relative-to-src/bldfm> <old> <new>   (mutates a scratch copy of /repo HEAD)
 M=/verif/.work/mut$$
 rm -rf $M; mkdir -p $M; cp -r /repo/src $M/src
 python3 - "$M/src/bldfm/$3" "$4" "$5" <<'PY' || { rm -rf $M; exit 1; }
